@@ -23,6 +23,9 @@ type Result = std::result::Result<ArrayImpl, ConvertError>;
 impl ArrayImpl {
     pub fn neg(&self) -> Result {
         Ok(match self {
+            A::Int16(a) => A::new_int16(try_unary_op(a.as_ref(), |v| {
+                v.checked_neg().ok_or(ConvertError::OutOfRange("neg"))
+            })?),
             A::Int32(a) => A::new_int32(try_unary_op(a.as_ref(), |v| {
                 v.checked_neg().ok_or(ConvertError::OutOfRange("neg"))
             })?),
@@ -39,9 +42,12 @@ impl ArrayImpl {
     pub fn unary_op(&self, op: &UnaryOperator) -> Result {
         Ok(match op {
             UnaryOperator::Plus => match self {
-                A::Int32(_) | A::Int64(_) | A::Float64(_) | A::Decimal(_) | A::Interval(_) => {
-                    self.clone()
-                }
+                A::Int16(_)
+                | A::Int32(_)
+                | A::Int64(_)
+                | A::Float64(_)
+                | A::Decimal(_)
+                | A::Interval(_) => self.clone(),
                 _ => return Err(ConvertError::NoUnaryOp("+".into(), self.type_string())),
             },
             UnaryOperator::Minus => self.neg()?,
